@@ -20,19 +20,19 @@ theorem convertNumber_ty (x : Num) (t : Ty) :
   | f32 => exact ⟨.f32, rfl, rfl⟩
   | _ => exact ⟨.f64, rfl, rfl⟩
 
-theorem checkArg_of_not_f64 {p : Ty} {a : Val} (hna : ∀ x, a ≠ .f64 x) :
-    checkArg oob p a =
+theorem checkArgCore_of_not_f64 {p : Ty} {a : Val} (hna : ∀ x, a ≠ .f64 x) :
+    checkArgCore oob p a =
       if a.ty = some p then .accept a
       else if p.isInterface then (match a.ty with | none => .panic | some _ => .error)
       else if p = .list then .accept a else .error := by
   cases a <;> first | rfl | exact absurd rfl (hna _)
 
 /-- an accepted argument was of a compatible kind -/
-theorem checkArg_accept_compatible {p : Ty} {a v : Val} (h : checkArg oob p a = .accept v) :
+theorem checkArgCore_accept_compatible {p : Ty} {a v : Val} (h : checkArgCore oob p a = .accept v) :
     compatible p a = true := by
   by_cases hf : ∃ x, a = .f64 x
   · obtain ⟨x, rfl⟩ := hf
-    unfold checkArg at h
+    unfold checkArgCore at h
     simp only at h
     unfold compatible
     simp only
@@ -45,7 +45,7 @@ theorem checkArg_accept_compatible {p : Ty} {a v : Val} (h : checkArg oob p a = 
       · rename_i heq; simp at heq; subst heq; simp [Ty.isNumeric] at hn
       · simp at h
   · have hna : ∀ x, a ≠ .f64 x := fun x hx => hf ⟨x, hx⟩
-    rw [checkArg_of_not_f64 hna] at h
+    rw [checkArgCore_of_not_f64 hna] at h
     have hc : compatible p a = (a.ty == some p || p == .list) := by
       cases a <;> first | rfl | exact absurd rfl (hna _)
     rw [hc]
@@ -59,12 +59,33 @@ theorem checkArg_accept_compatible {p : Ty} {a v : Val} (h : checkArg oob p a = 
         · simp [h1, h2, h3] at h
 
 /-- NULL is only ever let through unchanged -/
-theorem checkArg_nil {p : Ty} {v : Val} (h : checkArg oob p .nil = .accept v) : v = .nil := by
-  unfold checkArg at h
+theorem checkArgCore_nil {p : Ty} {v : Val} (h : checkArgCore oob p .nil = .accept v) : v = .nil := by
+  unfold checkArgCore at h
   simp [Val.ty] at h
   split at h
   · simp at h
   · split at h <;> simp_all
+
+theorem outOfRange_of_not_f64 {p : Ty} {a : Val} (hna : ∀ x, a ≠ .f64 x) : outOfRange p a = false := by
+  cases a <;> first | rfl | exact absurd rfl (hna _)
+
+/-- an accepted argument passed the range check and the rest of the loop body -/
+theorem checkArg_accept {p : Ty} {a v : Val} (h : checkArg oob p a = .accept v) :
+    outOfRange p a = false ∧ checkArgCore oob p a = .accept v := by
+  unfold checkArg at h
+  split at h
+  · simp at h
+  · rename_i hr; exact ⟨by simpa using hr, h⟩
+
+theorem checkArg_of_not_f64 {p : Ty} {a : Val} (hna : ∀ x, a ≠ .f64 x) :
+    checkArg oob p a = checkArgCore oob p a := by
+  simp [checkArg, outOfRange_of_not_f64 hna]
+
+theorem checkArg_accept_compatible {p : Ty} {a v : Val} (h : checkArg oob p a = .accept v) :
+    compatible p a = true := checkArgCore_accept_compatible (checkArg_accept h).2
+
+theorem checkArg_nil {p : Ty} {v : Val} (h : checkArg oob p .nil = .accept v) : v = .nil :=
+  checkArgCore_nil (checkArg_accept h).2
 
 /-! ### buildArgs -/
 
@@ -185,10 +206,10 @@ theorem convertNumber_ty_of_numeric {x : Num} {p : Ty} (h : p.isNumeric = true) 
 /-- a fitting argument is accepted, as a value of exactly the parameter's type -/
 theorem checkArg_of_fits {p : Ty} {a : Val} (h : Fits p a) :
     ∃ v, checkArg oob p a = .accept v ∧ v.ty = some p := by
-  rcases h with ⟨x, rfl, hn⟩ | ⟨ht, hna⟩
+  rcases h with ⟨x, rfl, hn, hfit⟩ | ⟨ht, hna⟩
   · refine ⟨convertNumber oob x p, ?_, convertNumber_ty_of_numeric hn⟩
-    simp [checkArg, convertNumber_ty_of_numeric (oob := oob) (x := x) hn]
-  · exact ⟨a, by rw [checkArg_of_not_f64 hna]; simp [ht], ht⟩
+    simp [checkArg, outOfRange, hfit, checkArgCore, convertNumber_ty_of_numeric (oob := oob) (x := x) hn]
+  · exact ⟨a, by rw [checkArg_of_not_f64 hna, checkArgCore_of_not_f64 hna]; simp [ht], ht⟩
 
 theorem buildArgs_of_fits : ∀ {ps : List Ty} {as : List Val}, AllFit ps as →
     ∃ f, buildArgs chk oob ps as = .ok f ∧ TypesMatch f ps := by
@@ -263,7 +284,7 @@ theorem buildArgs_append_of_fits : ∀ {ps : List Ty} {as : List Val}, AllFit ps
 
 /-- a `[]interface{}` parameter lets every value through unchanged -/
 theorem checkArg_list (a : Val) : checkArg oob .list a = .accept a := by
-  cases a <;> simp [checkArg, convertNumber, Val.ty, Ty.isInterface, Ty.list]
+  cases a <;> simp [checkArg, outOfRange, numberFits, checkArgCore, convertNumber, Val.ty, Ty.isInterface, Ty.list]
 
 /-! ### reflect.Call -/
 
@@ -367,15 +388,15 @@ theorem buildArgs_numeric_exact : ∀ {ps : List Ty} {as f : List Val}, buildArg
         refine ⟨?_, ?_, ?_⟩
         · intro k n hp ht hr
           simp at hp; subst hp
-          simp [checkArg, convertNumber, ht, hr, Val.ty] at hc
+          simp [checkArg, outOfRange, numberFits, checkArgCore, convertNumber, ht, hr, Val.ty] at hc
           simp [hc]
         · intro hp
           simp at hp; subst hp
-          simp [checkArg, convertNumber, Val.ty] at hc
+          simp [checkArg, outOfRange, numberFits, checkArgCore, convertNumber, Val.ty] at hc
           simp [hc]
         · intro hp
           simp at hp; subst hp
-          simp [checkArg, convertNumber, Val.ty] at hc
+          simp [checkArg, outOfRange, numberFits, checkArgCore, convertNumber, Val.ty] at hc
           simp [hc]
 
 /-- a `[]interface{}` parameter passes its argument on unchanged -/
